@@ -531,30 +531,41 @@ Proof. intros F. rewrite expand_is_gen by exact F. apply expand_gen_prob, F. Qed
 Theorem simulate_preserves_total d ds : well_formed d ds -> Forall proper ds -> mass (expand d ds) = mass d.
 Proof. intros F P. rewrite expand_is_gen by exact F. apply expand_gen_mass, P. Qed.
 
-Theorem simulate_pnr d ds minp : detection_type ds = TPnr ->
-  simulate d ds minp = (d, 1) /\ forall s, length s = length ds -> tensor s ds = [(s, 1)].
-Proof. intros E. split. unfold simulate. rewrite E. destruct d; reflexivity.
-  pose proof (detection_type_inv ds _ E ltac:(discriminate)) as T. clear E.
+Lemma tensor_pnr ds : detection_type ds = TPnr -> forall s, length s = length ds -> tensor s ds = [(s, 1)].
+Proof. intros E. pose proof (detection_type_inv ds _ E ltac:(discriminate)) as T. clear E.
   induction T as [|d' ds' Hd T IH]; intros [|n s] Hl; try discriminate. reflexivity.
   cbn [tensor]. rewrite IH by (simpl in Hl; lia).
   assert (K : kernel d' n = [(n, 1)]).
   { destruct d' as [[|w mx|L r]|]; simpl in *; try discriminate; auto. destruct (w =? 1)%nat; discriminate. }
   rewrite K. cbn [flat_map map app fst snd]. replace (1 * 1) with 1 by ring. reflexivity. Qed.
 
-Theorem simulate_mass d ds minp : d <> [] -> detection_type ds <> TPnr -> well_formed d ds -> Forall proper ds ->
-  mass d = 1 ->
+(* with only PNR / absent detectors the product kernel is the identity *)
+Theorem expand_pnr d ds : detection_type ds = TPnr -> well_formed d ds -> expand d ds = d.
+Proof. intros E F. rewrite expand_is_gen by exact F. unfold expand_gen.
+  induction d as [|[s p] d IH]. reflexivity. inversion F; subst.
+  cbn [flat_map fst snd]. rewrite IH by assumption. rewrite (tensor_pnr ds E s) by assumption.
+  cbn [map app fst snd]. replace (p * 1) with p by ring. reflexivity. Qed.
+
+Theorem simulate_pnr d ds : detection_type ds = TPnr ->
+  simulate d ds None = (d, 1) /\ forall s, length s = length ds -> tensor s ds = [(s, 1)].
+Proof. intros E. split. unfold simulate, simulate_cfg. rewrite E. destruct d; reflexivity.
+  apply tensor_pnr, E. Qed.
+
+Lemma mass_one_nonempty (d : bsd) : mass d = 1 -> d <> [].
+Proof. intros M E. subst d. revert M. unfold mass. simpl. discriminate. Qed.
+
+(* the general branch (filter, performance, normalisation) *)
+Lemma bookkeeping_general d ds minp (r : bsd * Qc) : well_formed d ds -> Forall proper ds -> mass d = 1 ->
+  r = (normalize (kept minp (expand d ds)), 1 - mass (dropped minp (expand d ds))) ->
   let out := expand d ds in
-  let res := fst (simulate d ds minp) in
-  let perf := snd (simulate d ds minp) in
+  let res := fst r in
+  let perf := snd r in
   perf = mass (kept minp out) /\
   perf + mass (dropped minp out) = 1 /\
   (forall t, prob_of t (kept minp out) = if keep minp t then prob_of t out else 0) /\
   Forall (fun e => keep minp (fst e) = true) res /\
   (perf <> 0 -> mass res = 1 /\ forall t, prob_of t res = (if keep minp t then prob_of t out else 0) / perf).
-Proof. intros Hne Ht F P M. cbv zeta.
-  assert (S : simulate d ds minp = (normalize (kept minp (expand d ds)), 1 - mass (dropped minp (expand d ds)))).
-  { unfold simulate. destruct d; [congruence|]. destruct (detection_type ds); try reflexivity. congruence. }
-  rewrite S. cbn [fst snd].
+Proof. intros F P M S. cbv zeta. rewrite S. cbn [fst snd].
   pose proof (filter_split_mass (keep minp) (expand d ds)) as Sp. fold (kept minp (expand d ds)) in Sp.
   fold (dropped minp (expand d ds)) in Sp. rewrite (simulate_preserves_total d ds F P), M in Sp.
   assert (Pf : 1 - mass (dropped minp (expand d ds)) = mass (kept minp (expand d ds))) by (rewrite <- Sp; ring).
@@ -566,17 +577,68 @@ Proof. intros Hne Ht F P M. cbv zeta.
   - apply normalize_mass, H.
   - intros t. rewrite normalize_prob by exact H. unfold kept at 1. rewrite prob_of_filter. reflexivity. Qed.
 
-(* the all-PNR shortcut returns before the photon filter is looked at: the general statement
-   "perf = kept mass and every returned state passes the filter" fails there *)
-Lemma simulate_filter_refuted : exists d ds k,
+Lemma filter_all (l : bsd) : filter (fun e => keep None (fst e)) l = l.
+Proof. induction l as [|a l IH]; [reflexivity|].
+  change (a :: filter (fun e => keep None (fst e)) l = a :: l). rewrite IH. reflexivity. Qed.
+Lemma filter_none (l : bsd) : filter (fun e => negb (keep None (fst e))) l = [].
+Proof. induction l as [|a l IH]; [reflexivity|]. exact IH. Qed.
+
+(* the all-PNR shortcut without filter: the statement holds trivially *)
+Lemma bookkeeping_shortcut d ds : well_formed d ds -> mass d = 1 -> detection_type ds = TPnr ->
+  let out := expand d ds in
+  let res := fst (d, 1) in
+  let perf := snd (d, 1) in
+  perf = mass (kept None out) /\
+  perf + mass (dropped None out) = 1 /\
+  (forall t, prob_of t (kept None out) = if keep None t then prob_of t out else 0) /\
+  Forall (fun e => keep None (fst e) = true) res /\
+  (perf <> 0 -> mass res = 1 /\ forall t, prob_of t res = (if keep None t then prob_of t out else 0) / perf).
+Proof. intros F M E. cbv zeta. cbn [fst snd keep]. rewrite (expand_pnr d ds E F).
+  unfold kept, dropped. rewrite filter_all, filter_none. rewrite M.
+  split. reflexivity.
+  split. unfold mass. simpl. ring.
+  split. intros t. reflexivity.
+  split. clear. induction d; constructor; auto.
+  intros _. split. reflexivity.
+  intros t. unfold Qcdiv. field. discriminate. Qed.
+
+(* FULL statement, every detector list (the current code) *)
+Theorem simulate_mass d ds minp : well_formed d ds -> Forall proper ds -> mass d = 1 ->
+  let out := expand d ds in
+  let res := fst (simulate d ds minp) in
+  let perf := snd (simulate d ds minp) in
+  perf = mass (kept minp out) /\
+  perf + mass (dropped minp out) = 1 /\
+  (forall t, prob_of t (kept minp out) = if keep minp t then prob_of t out else 0) /\
+  Forall (fun e => keep minp (fst e) = true) res /\
+  (perf <> 0 -> mass res = 1 /\ forall t, prob_of t res = (if keep minp t then prob_of t out else 0) / perf).
+Proof. intros F P M. pose proof (mass_one_nonempty d M) as Hne.
+  destruct (detection_type ds) eqn:E; destruct minp as [k|];
+    try (apply bookkeeping_general; auto; unfold simulate, simulate_cfg; destruct d; [congruence|]; rewrite E; reflexivity).
+  replace (simulate d ds None) with (d, 1) by (unfold simulate, simulate_cfg; rewrite E; destruct d; reflexivity).
+  apply bookkeeping_shortcut; auto. Qed.
+
+(* the code before d3d39a64: on every list that is not all-PNR it is the current code ... *)
+Lemma simulate_old_code_same d ds minp : detection_type ds <> TPnr -> simulate_old_code d ds minp = simulate d ds minp.
+Proof. intros H. unfold simulate_old_code, simulate, simulate_cfg. destruct d; auto. destruct (detection_type ds); congruence. Qed.
+
+(* ... and on all-PNR lists it returned before the photon filter was looked at: there the statement
+   "perf = kept mass and every returned state passes the filter" FAILED (historical defect, repaired) *)
+Lemma simulate_filter_refuted_old_code : exists d ds k,
   mass d = 1 /\ well_formed d ds /\ Forall proper ds /\
-  snd (simulate d ds (Some k)) = 1 /\ exists e, In e (fst (simulate d ds (Some k))) /\ keep (Some k) (fst e) = false.
+  snd (simulate_old_code d ds (Some k)) = 1 /\
+  exists e, In e (fst (simulate_old_code d ds (Some k))) /\ keep (Some k) (fst e) = false.
 Proof. exists [([1%nat; 0%nat], Q2Qc (1#2)); ([0%nat; 0%nat], Q2Qc (1#2))], [Some Pnr; None], 1%nat.
   split. apply Qc_is_canon; reflexivity.
   split. repeat constructor.
   split. repeat constructor; intros n; unfold mass1; simpl; ring.
   split. reflexivity.
   exists ([0%nat; 0%nat], Q2Qc (1#2)). split. right; left; reflexivity. reflexivity. Qed.
+(* the same witness on the current code: |0,0> is dropped and accounted for *)
+Lemma simulate_witness_current_code :
+  let r := simulate [([1%nat; 0%nat], Q2Qc (1#2)); ([0%nat; 0%nat], Q2Qc (1#2))] [Some Pnr; None] (Some 1%nat) in
+  map fst (fst r) = [[1%nat; 0%nat]] /\ snd r = Q2Qc (1#2).
+Proof. split. vm_compute. reflexivity. apply Qc_is_canon. vm_compute. reflexivity. Qed.
 
 (* ---------------------------------------------------------------- every kernel is a probability law *)
 Lemma binom_0 n : binom n 0 = 1%nat. Proof. destruct n; reflexivity. Qed.
@@ -692,7 +754,7 @@ Proof. destruct d as [|w mx|L r]; cbn [max_detections detect]; intros E Hm Hk; t
 (* final forms: every kernel is a law, so no hypothesis on the detectors is left *)
 Theorem simulate_total d ds : well_formed d ds -> mass (expand d ds) = mass d.
 Proof. intros F. apply simulate_preserves_total; auto using all_proper. Qed.
-Theorem simulate_bookkeeping d ds minp : d <> [] -> detection_type ds <> TPnr -> well_formed d ds -> mass d = 1 ->
+Theorem simulate_bookkeeping d ds minp : well_formed d ds -> mass d = 1 ->
   let out := expand d ds in
   let res := fst (simulate d ds minp) in
   let perf := snd (simulate d ds minp) in
@@ -704,7 +766,7 @@ Theorem simulate_bookkeeping d ds minp : d <> [] -> detection_type ds <> TPnr ->
 Proof. intros. apply simulate_mass; auto using all_proper. Qed.
 
 Example simulate_hypotheses_satisfiable : exists d ds,
-  d <> [] /\ detection_type ds <> TPnr /\ well_formed d ds /\ mass d = 1 /\ snd (simulate d ds (Some 2%nat)) <> 0.
+  well_formed d ds /\ mass d = 1 /\ snd (simulate d ds (Some 2%nat)) <> 0.
 Proof. exists [([2%nat; 0%nat], Q2Qc (1#2)); ([1%nat; 1%nat], Q2Qc (1#2))], [Some (Tree 1 (Q2Qc (1#2))); None].
-  split. discriminate. split. discriminate. split. repeat constructor.
+  split. repeat constructor.
   split. apply Qc_is_canon; reflexivity. vm_compute. discriminate. Qed.
